@@ -35,3 +35,7 @@ pub(crate) const LOW_INDEX: usize = TIME_TRACE_SIZE * 9 / 10;
 pub(crate) const LOG_TARGET_RELAY: &str = "ckb_relay";
 
 pub(crate) const LOG_TARGET_FILTER: &str = "ckb_filter";
+
+/// verification hook: the in-flight table types (module `types` is private); add-only, off by default
+#[cfg(feature = "verif-hooks")]
+pub use crate::types::{InflightBlocks, InflightState};
